@@ -138,4 +138,5 @@ MUTANTS += [
  {"id": "revert-F-S5", "props": ["C01"], "count": 9, "edits": [("pymtl3/dsl/AstHelper.py", "          if   x in self.locals:  pass # assigned in the block itself\n          elif x in self.closure: n = (True, x)\n          elif x in self.globals: n = (False, x)", "          if   x in self.globals: n = (False, x)\n          elif x in self.closure: n = (True, x)")]},
  {"id": "revert-F-S6", "props": ["C02"], "edits": [("pymtl3/dsl/ComponentLevel2.py", "    if '_name_info' in cls.__dict__:", "    if hasattr( cls, '_name_info' ):")]},
  {"id": "revert-F-D4", "props": ["C09"], "edits": [("pymtl3/dsl/ComponentLevel3.py", "              if u is not v and u is not writer and u in net and u.slice_overlap( v ):", "              if False:")]},
+ {"id": "revert-F-S7", "props": ["C02"], "edits": [("pymtl3/dsl/AstHelper.py", "    for x in node.keywords:\n      self.visit( x.value )\n", ""), ("pymtl3/dsl/AstHelper.py", "      self.generic_visit( node )\n      return\n", "      return\n")]},
 ]
